@@ -11,7 +11,7 @@ OUT_PROOF = """proof {
     lemma_created_from_pairs(*tx, height, opts);
 }"""
 UNIT = Unit(
-    name="applychk", uses="group_core_axioms",
+    name="applychk", lemma_obs=['lemma_tx_conserves'], uses="group_core_axioms",
     prelude=["core.rs", "raw.rs", "iter.rs", "crypto.rs", "state_abs.rs", "melvm_abs.rs", "txmethods.rs"],
     lemmas=["sums.rs", "iterlem.rs", "coinsview.rs", "header.rs", "seal_opaque.rs", "tips.rs", "apply.rs", "apply_c04.rs"],
     items=[
